@@ -143,7 +143,9 @@ broadcast use {crate::iter_items_array, crate::iter_items_vec};
         sop('dup_from', 'sp_dup_from', closures={'.and_then(': {'params': 'i: usize', 'ret': 'o: Option<usize>',
             'ensures': 'o == (if i >= 1 { Some((i - 1) as usize) } else { None::<usize> })'}}),
         sop('swap_index', 'sp_swap_index'),
-        sop('select', 'sp_select', mode='assumed', note='closure captures &mut self (Verus: unsupported); Kani K2 through step_op_stack(Select)'),
+        sop('select', 'sp_select', inline_and_then=True,
+            closures={'self.pop2_push1(': {'params': 'w0: Word, w1: Word', 'ret': 'o: Result<Word, StackError>',
+                      'ensures': 'match crate::w2b(cond_w) { Some(c) => o == Ok::<Word, StackError>(if c { w1 } else { w0 }), None => o is Err }'}}),
         sop('select_range', 'sp_select_range'),
         F('pop', requires=WF, ensures=WFE + """,
             old(self)@.len() > 0 ==> r == Ok::<Word, StackError>(old(self)@.last()) && final(self)@ =~= old(self)@.drop_last(),
@@ -360,11 +362,14 @@ pub open spec fn ctrl_kind_ok(op: crate::Op, c: Option<ProgramControlFlow>) -> b
                 None => r is Err,
                 Some(false) => r is Ok && r->Ok_0 is None,
                 Some(true) => r is Ok && r->Ok_0 == Some(ProgramControlFlow::Halt) }""", props=('C05', 'C09')))
-    tc.fn('panic_if', F('panic_if', mode='assumed', requires='stack_wf(old(stack)@)', ensures="""stack_wf(final(stack)@), r matches Err(e) ==> crate::error::err_plain(e),
+    tc.fn('panic_if', F('panic_if', requires='stack_wf(old(stack)@)', ensures="""stack_wf(final(stack)@), r matches Err(e) ==> crate::error::err_plain(e),
             old(stack)@.len() < 1 ==> r is Err,
             old(stack)@.len() >= 1 ==> final(stack)@ =~= old(stack)@.drop_last() && match w2b(old(stack)@.last()) {
-                None => r is Err, Some(false) => r is Ok, Some(true) => r is Err }""",
-          note='`.iter().copied()` is a provided trait method Verus cannot specify; Kani K2 through step_op_total_control_flow(PanicIf)',
+                None => r is Err, Some(false) => r is Ok,
+                // the panic carries the stack at the time of the panic (operand popped)
+                Some(true) => r matches Err(crate::error::OpError::TotalControlFlow(crate::error::TotalControlFlowError::Panic(v))) && v@ =~= old(stack)@.drop_last() }""",
+          # R14: `X.iter().copied().collect()` into a Vec is `X.to_vec()` (T-std: a copied slice iterator yields the elements in order)
+          rewrites=[('R14', 'stack.iter().copied().collect()', 'stack.to_vec()')],
           props=('C05', 'C09')))
 
     # ------------------------------------------------------------------ access
@@ -381,9 +386,11 @@ pub open spec fn access_wf(a: Access) -> bool { a.index < a.solutions@.len() }
         F('this_solution', requires='access_wf(*self)', ensures='*r == self.solutions@[self.index as int]', props=('C05', 'C12')),
     ])
     SWS = 'stack_wf(old(stack)@)'
-    ac.fn('predicate_data', F('predicate_data', mode='assumed', requires=SWS, ensures="""stack_wf(final(stack)@), r matches Err(e) ==> err_plain(e),
+    ac.fn('predicate_data', F('predicate_data', requires=SWS, ensures="""stack_wf(final(stack)@), r matches Err(e) ==> err_plain(e),
             match crate::sp_pred_data(old(stack)@, this_predicate_data.deep_view()) { Some(s) => r is Ok && final(stack)@ =~= s, None => r is Err }""",
-        note='`words.iter().copied()` is a provided trait method Verus cannot specify; arithmetic is in range_from_start_len / resolve_predicate_data_range (verified); Kani K2 through step_op_access(PredicateData)',
+        # R14: `extend(X.iter().copied())` pushes the elements of X in order, i.e. `extend(X.to_vec())` (T-std)
+        rewrites=[('R14', 'stack.extend(words.iter().copied())', 'stack.extend(words.to_vec())')],
+        head_proof='assert(this_predicate_data.deep_view().len() == this_predicate_data@.len()); assert(forall|i: int| 0 <= i < this_predicate_data@.len() ==> #[trigger] this_predicate_data.deep_view()[i] == this_predicate_data@[i]@);',
         props=('C05', 'C12')))
     ac.fn('predicate_data_len', F('predicate_data_len', requires=SWS, ensures="""stack_wf(final(stack)@),
             match crate::sp_pred_data_len(old(stack)@, this_predicate_data.deep_view()) { Some(s) => r is Ok && final(stack)@ =~= s, None => r is Err }""",
